@@ -37,13 +37,18 @@ def gen_cases(rng, tier):
     L = lg.gen_leaf(rng, cls=CLASSES[i % len(CLASSES)], variant=i // len(CLASSES))
     s = lg.gen_flow(rng, L)
     p, pk = lg.gen_price(rng, L['n'])
-    out.append({'leaf': L, 's': s, 'p': p})
+    c = {'leaf': L, 's': s, 'p': p}
+    if i % 9 == 7:      # whole-number flows handed over as an integer array
+      si, ok = lg.integral_flow(L, s)
+      if ok:
+        c['s'], c['int'] = si, True
+    out.append(c)
   return out
 
 
 def observe(c):
   d = lg.build(c['leaf'])
-  s, p = np.array(fl(c['s'])), np.array(fl(c['p']))
+  s, p = lg.np_flow(c), np.array(fl(c['p']))
   return {'cost': fr(core.maybe_stale(c, d.cost, s, p)), 'deriv': fr(np.array(core.maybe_stale(c, d.deriv, s, p)).reshape(-1))}
 
 
@@ -66,11 +71,11 @@ def classify(c, o):
 
 
 def case_to_json(c):
-  return {'leaf': lg.leaf_to_json(c['leaf']), 's': core.jsonable(c['s']), 'p': core.jsonable(c['p'])}
+  return {'leaf': lg.leaf_to_json(c['leaf']), 's': core.jsonable(c['s']), 'p': core.jsonable(c['p']), 'int': bool(c.get('int'))}
 
 
 def case_from_json(j):
-  return {'leaf': lg.leaf_from_json(j['leaf']), 's': [F(v) for v in j['s']], 'p': [F(v) for v in j['p']]}
+  return {'leaf': lg.leaf_from_json(j['leaf']), 's': [F(v) for v in j['s']], 'p': [F(v) for v in j['p']], 'int': j.get('int', False)}
 
 
 # ---- direct oracle on the implementation: the documented formulas, evaluated in Python -----------------
